@@ -372,7 +372,7 @@ class CFG:
         the given AST node."""
         return list(self._ast_map.get(id(ast_node), []))
 
-    def reachable(self, start=None, avoid=(), follow_exc=True):
+    def reachable(self, start=None, avoid=(), follow_exc=True, edge_ok=None):
         start = start if start is not None else self.entry
         avoid = set(avoid)
         seen = set()
@@ -385,8 +385,23 @@ class CFG:
             for s in self.succ[n]:
                 if s in avoid or s in seen:
                     continue
+                if edge_ok is not None and not edge_ok(n, s):
+                    continue
                 todo.append(s)
         return seen
+
+    def is_exc_edge(self, a, b):
+        """Is a->b an *implicit* exception edge (statement may raise), as
+        opposed to normal flow or an explicit `raise`?"""
+        if a.kind == "stmt" and isinstance(a.ast, ast.Raise):
+            return False
+        if a.kind == "stmt" and a.note == "assert-fail":
+            return False
+        if b is self.raise_exit or b.kind == "dispatch":
+            return True
+        if b.kind == "join" and b.note == "finally[raise]":
+            return True
+        return False
 
     def live_nodes(self):
         return self.reachable(self.entry)
@@ -480,7 +495,7 @@ class CFG:
     def exists_path(self, a, b, avoid=()):
         return b in self.reachable(a, avoid=avoid)
 
-    def witness_path(self, a, b, avoid=()):
+    def witness_path(self, a, b, avoid=(), edge_ok=None):
         """Shortest path a -> b avoiding nodes in `avoid` (BFS) or None."""
         avoid = set(avoid)
         if a in avoid:
@@ -497,7 +512,7 @@ class CFG:
                         n = prev[n]
                     return list(reversed(path))
                 for s in self.succ[n]:
-                    if s not in prev and s not in avoid:
+                    if s not in prev and s not in avoid and (edge_ok is None or edge_ok(n, s)):
                         prev[s] = n
                         nq.append(s)
             q = nq
